@@ -414,6 +414,77 @@ def coqchk_step(pid):
         res['clean'] = False; res['tail'] = out[-800:]
     return res
 
+
+# ----------------------------------------------------------------------------------------
+# thorough tier: which lines of the anchored code the implementation-side cases execute
+def impl_line_coverage(pid, funcs, cases, sample=12000, budget_s=150):
+    """runs a strided sample of the cases in this process under coverage.py, restricted to the files the
+    property is anchored in (properties.jsonl), and reports executed/executable statements per file and
+    inside the anchored line ranges (widened by 15 lines, since fix: commits shift them).  Information
+    about generator blind spots; never a verdict."""
+    try:
+        import coverage
+    except Exception as e:
+        return {'available': False, 'why': repr(e)}
+    anchors = None
+    for l in open(os.path.join(VERIF, 'properties.jsonl')):
+        d = json.loads(l)
+        if d['id'] == pid:
+            anchors = d.get('anchors', {})
+    if not anchors:
+        return {'available': False, 'why': 'no anchors'}
+    files = [os.path.join(REPO, f) for f in anchors.get('files', []) if os.path.exists(os.path.join(REPO, f))]
+    ranges = {}
+    for m in anchors.get('mechanism', []):
+        for part in re.findall(r'([\w/\.]+\.py):([\d,\-]+)', m.get('where', '')):
+            for r in part[1].split(','):
+                if r:
+                    a, _, b = r.partition('-')
+                    ranges.setdefault(os.path.join(REPO, part[0]), []).append((int(a) - 15, int(b or a) + 15))
+    byfn = {}
+    for c in cases:
+        byfn.setdefault(c[0], []).append(c)
+    pick = []
+    for fn, cs in byfn.items():     # an even share per compared function, strided over its cases
+        share = max(1, sample // len(byfn))
+        step = max(1, len(cs) // share)
+        pick.extend(cs[::step][:share])
+    cov = coverage.Coverage(include=files, data_file=None)
+    t = time.time(); done = 0
+    cov.start()
+    try:
+        for fn, arg in pick:
+            try:
+                funcs[fn](arg)
+            except BaseException:
+                pass
+            done += 1
+            if time.time() - t > budget_s:
+                break
+    finally:
+        cov.stop()
+    out = {'available': True, 'cases_run': done, 'files': {}}
+    for f in files:
+        try:
+            _, stmts, _, missing, _ = cov.analysis2(f)
+        except Exception as e:
+            out['files'][os.path.relpath(f, REPO)] = {'error': repr(e)}
+            continue
+        src = open(f).read().split('\n')
+        def body(n):   # statements executed at import time (def/class/decorator/import lines) are not counted
+            line = src[n - 1].strip() if 0 < n <= len(src) else ''
+            return not re.match(r'(def |class |@|import |from |"""|r"""|\'\'\')', line)
+        stmts = [n for n in stmts if body(n)]
+        missing = [n for n in missing if body(n)]
+        rec = {'statements': len(stmts), 'executed': len(stmts) - len(missing)}
+        rs = ranges.get(f)
+        if rs:
+            inr = lambda n: any(a <= n <= b for a, b in rs)
+            st_r = [n for n in stmts if inr(n)]; mi_r = [n for n in missing if inr(n)]
+            rec['anchored_ranges'] = {'statements': len(st_r), 'executed': len(st_r) - len(mi_r), 'not_executed_lines': mi_r[:60]}
+        out['files'][os.path.relpath(f, REPO)] = rec
+    return out
+
 # ----------------------------------------------------------------------------------------
 def load_known():
     out = []
@@ -563,6 +634,12 @@ def run_check(mod, tier, seed):
         omsgs = [p[1] for p in ipairs]
         del ipairs
         ck.log('impl + oracle done')
+        if tier == 'thorough' and not os.environ.get('VERIF_SKIP_COVERAGE'):
+            try:
+                thorough_info['impl_line_coverage'] = impl_line_coverage(pid, implf, plain)
+            except Exception as e:
+                thorough_info['impl_line_coverage'] = {'available': False, 'why': repr(e)}
+            ck.log('line coverage of the anchored files: %s' % json.dumps(thorough_info['impl_line_coverage'])[:600])
         mismatches = []
         oracle_fail = []
         distinct = set()
